@@ -292,8 +292,11 @@ def run(ctx):
     # (2)
     fails = []
     n_sc = 300 if quick else 5000
-    for _ in range(n_sc):
-        evs = gen_scenario(rng)
+    # corpus first: the recorded finding C12-dupguard (the third copy, from another host, is dropped while the answer to the second is held
+    # by the one-second protection)
+    corpus = [[(0, 'ptr', '10.0.0.8', 57, 500, 0), (999, 'ptr', '10.0.0.7', 57, 400, 0), (1199, 'ptr', '10.0.0.8', 20, 400, 0)]]
+    for k in range(n_sc + len(corpus)):
+        evs = corpus[k] if k < len(corpus) else gen_scenario(rng)
         log, esc = run_scenario(evs)
         why = oracle_scenario(log, esc)
         if why:
